@@ -664,16 +664,84 @@ Proof.
   - cbn [begin_txn t_objs]. eapply (oo_cinv op Hok). exact Hst.
 Qed.
 
+(* the same with the facts about the logged state given directly *)
+Lemma reset_rfinal_gen : forall op o st so,
+  opened_ok op -> sgood (w_objs (op_world op)) st -> NoDup (map fst (s_patches st)) ->
+  state_of (w_objs (op_world op)) so = Some st ->
+  rfinal (w_objs (op_world op)) (op_state op) (reset_to_state st (begin_txn op o)).
+Proof.
+  intros op o st so Hok Hg G2 Hst.
+  destruct (begin_txn_inv op o Hok) as [H0 _].
+  destruct Hg as (G1 & G3 & G4).
+  apply (reset_final (K0 op o) st _ H0).
+  - exact G2.
+  - intros n Hn. apply G3. unfold all_of. apply in_or_app. now left.
+  - cbn [begin_txn t_objs]. eapply (oo_cinv op Hok). exact Hst.
+Qed.
+
+(* external modifications are logged before undo/redo walks through the log: the opened stack
+   stays good, and the only new state in the store is the (re-headed) current one *)
+Lemma log_extmods_first_ok : forall op0 op,
+  opened_ok op0 -> log_extmods_first op0 = Some op ->
+  opened_ok op
+  /\ store_extends (w_objs (op_world op0)) (w_objs (op_world op))
+  /\ s_patches (op_state op) = s_patches (op_state op0)
+  /\ (forall so s', state_of (w_objs (op_world op)) so = Some s' ->
+        state_of (w_objs (op_world op0)) so = Some s' \/ s' = op_state op).
+Proof.
+  intros op0 op Hok E. unfold log_extmods_first in E.
+  destruct (Nat.eqb _ _).
+  { injection E as <-. split; [exact Hok|]. split; [apply store_extends_refl|]. split; [reflexivity|].
+    intros so s' Hs. now left. }
+  destruct (log_external_mods (op_world op0) (op_state op0)) as [[w1 st1]|] eqn:El; [|discriminate].
+  injection E as <-. cbn [op_world op_state].
+  pose proof El as El'. unfold log_external_mods in El'.
+  destruct (w_stack (op_world op0)) as [so0|]; [|discriminate].
+  destruct (state_commit _ _ _) as [[objs' so']|]; [|discriminate].
+  injection El' as _ Est.
+  apply log_external_mods_spec in El as (L1 & L2 & L3 & L4 & L5 & L6 & L7 & L8 & L9 & L10 & L11).
+  destruct Hok as [Hc Hg Hch Hb].
+  assert (Hhas : forall n, In n (s_applied (op_state op0)) -> pm_get (s_patches (op_state op0)) n <> None).
+  { intros n Hn. eapply sgood_applied_has; [exact Hg|exact Hn]. }
+  assert (Hch1 : chain_ok (w_objs w1) st1).
+  { apply (chain_ok_same (w_objs w1) (op_state op0) st1); try assumption.
+    now apply (chain_ok_ext (w_objs (op_world op0))). }
+  split; [|split; [exact L9|split; [exact L7|exact L10]]].
+  constructor; cbn [op_world op_state op_base].
+  - unfold CInv. apply (SInv_transfer (w_objs (op_world op0)) (w_objs w1) (fun s => s = st1) Hc L9 L10).
+    intros s ->. exact Hch1.
+  - apply (sgood_ext (w_objs (op_world op0)) (w_objs w1)) in Hg; [|exact L9].
+    destruct Hg as (G1 & G2 & G3). rewrite <- Est. unfold sgood, all_of in *. cbn. auto.
+  - exact Hch1.
+  - rewrite L1. unfold stack_base in *. rewrite L6, L7.
+    destruct (s_applied (op_state op0)); [exact Hb|].
+    destruct (pm_get _ _); [|exact Hb]. now apply (first_parent_ext (w_objs (op_world op0))).
+Qed.
+
 Lemma step_undo_like : forall w steps hard msg,
   Inv w -> CInv w -> CInv (fst (run_undo_like w steps hard msg)).
 Proof.
   intros w steps hard msg Hinv Hc. unfold run_undo_like.
-  open_cmd Hinv Hc op Eop Hok. cbv zeta.
+  open_cmd Hinv Hc op0 Eop Hok0. cbv zeta.
+  destruct (log_extmods_first op0) as [op|] eqn:El; [|triv Hc Hok0].
+  destruct (log_extmods_first_ok op0 op Hok0 El) as (Hok & He1 & Hp1 & Hst1).
   apply transact_cinv; [exact Hok|].
   destruct (w_stack (op_world op)) as [so|]; [|cbn; apply ns_extends_refl].
   destruct (find_undo_state _ _ _ _) as [st|] eqn:Ef; [|cbn; apply ns_extends_refl].
   apply find_undo_state_in in Ef as [so' Hst].
-  eapply reset_rfinal; eassumption.
+  change (t_objs (begin_txn op (opts CDisallow true hard true true true))) with (w_objs (op_world op)) in Hst.
+  pose proof (open_require_objs w op0 Eop) as Eo.
+  destruct (open_stack_cases _ _ _ Eop)
+    as [(sow & sw & _ & Hsw & _ & _ & Hsw' & _)|[(objs' & sow & [Hp|Hn] & _)|(Hn & _)]];
+    [|discriminate|unfold open_stack in Eop; rewrite Hn in Eop; discriminate
+     |unfold open_stack in Eop; rewrite Hn in Eop; discriminate].
+  apply (reset_rfinal_gen op _ st so' Hok); [| |exact Hst].
+  - destruct (Hst1 so' st Hst) as [Hold| ->]; [|apply (oo_good op Hok)].
+    apply (sgood_ext (w_objs (op_world op0))); [exact He1|].
+    rewrite Eo in Hold |- *. eapply sgood_of_inv; eassumption.
+  - destruct (Hst1 so' st Hst) as [Hold| ->].
+    + rewrite Eo in Hold. eapply inv_patches_nodup; eassumption.
+    + rewrite Hp1, Hsw'. eapply inv_patches_nodup; eassumption.
 Qed.
 
 Lemma step_reset : forall w entry hard,
